@@ -119,6 +119,15 @@ __CPROVER_ensures(__CPROVER_old(_this->error) == -1 ==> _this->error == -1)
 __CPROVER_ensures(_this->ext <= __CPROVER_old(_this->ext) + 3)
 ;
 
+/* case split of the table-driven operations by the (constant) precision: a group built with -DVERIF_FTB=k enforces the
+   contract for _ftb/_bits == k only; the union of the groups k = 1..max is the contract (each multiplication then has a
+   fixed operand width, which is what lets the SAT back end decide the range facts) */
+#ifdef VERIF_FTB
+#define VERIF_FTB_CASE(x) ((x) == VERIF_FTB)
+#else
+#define VERIF_FTB_CASE(x) 1
+#endif
+
 /* head-room for the carry counter and the bit counter: k primitive operations */
 #define ENC_SLACK(e,k) ((e)->ext < (1U<<30) - 4*(k) && (e)->nbits_total < (1<<28) - 32*(k))
 #define ENC_OP_REQUIRES(e) (ENC_FRESH(e) && RI_ENC(e) && ENC_SLACK(e,1))
@@ -136,7 +145,7 @@ __CPROVER_ensures(_this->nbits_total == __CPROVER_old(_this->nbits_total) +
 ;
 
 void ec_encode_bin(ec_enc *_this, unsigned _fl, unsigned _fh, unsigned _bits)
-__CPROVER_requires(ENC_OP_REQUIRES(_this) && 1 <= _bits && _bits <= 16 && _fl < _fh && _fh <= (1U<<_bits))
+__CPROVER_requires(ENC_OP_REQUIRES(_this) && 1 <= _bits && _bits <= 16 && _fl < _fh && _fh <= (1U<<_bits) && VERIF_FTB_CASE(_bits))
 __CPROVER_assigns(ENC_FRAME(_this))
 __CPROVER_ensures(ENC_OP_ENSURES(_this))
 __CPROVER_ensures(_this->rng == SPEC_NORM(SPEC_RNG(__CPROVER_old(_this->rng), __CPROVER_old(_this->rng)>>_bits, _fl, _fh, (1U<<_bits))))
@@ -154,7 +163,7 @@ __CPROVER_ensures(_this->nbits_total == __CPROVER_old(_this->nbits_total) + 8*SP
 
 /* ICDF tables: non-increasing, entries < 2^ftb (first) and the symbol's interval non-empty */
 void ec_enc_icdf(ec_enc *_this, int _s, const unsigned char *_icdf, unsigned _ftb)
-__CPROVER_requires(ENC_OP_REQUIRES(_this) && 1 <= _ftb && _ftb <= 8 && 0 <= _s && _s < 256 && __CPROVER_is_fresh(_icdf, _s + 1))
+__CPROVER_requires(ENC_OP_REQUIRES(_this) && 1 <= _ftb && _ftb <= 8 && 0 <= _s && _s < 256 && __CPROVER_is_fresh(_icdf, _s + 1) && VERIF_FTB_CASE(_ftb))
 __CPROVER_requires(_s > 0 ? (_icdf[_s-1] > _icdf[_s] && _icdf[_s-1] <= (1U<<_ftb)) : (_icdf[0] < (1U<<_ftb)))
 __CPROVER_assigns(ENC_FRAME(_this))
 __CPROVER_ensures(ENC_OP_ENSURES(_this))
@@ -163,7 +172,7 @@ __CPROVER_ensures(_this->rng == SPEC_NORM(SPEC_RNG(__CPROVER_old(_this->rng), __
 ;
 
 void ec_enc_icdf16(ec_enc *_this, int _s, const opus_uint16 *_icdf, unsigned _ftb)
-__CPROVER_requires(ENC_OP_REQUIRES(_this) && 1 <= _ftb && _ftb <= 15 && 0 <= _s && _s < 65536 && __CPROVER_is_fresh(_icdf, 2*(_s + 1)))
+__CPROVER_requires(ENC_OP_REQUIRES(_this) && 1 <= _ftb && _ftb <= 15 && 0 <= _s && _s < 65536 && __CPROVER_is_fresh(_icdf, 2*(_s + 1)) && VERIF_FTB_CASE(_ftb))
 __CPROVER_requires(_s > 0 ? (_icdf[_s-1] > _icdf[_s] && _icdf[_s-1] <= (1U<<_ftb)) : (_icdf[0] < (1U<<_ftb)))
 __CPROVER_assigns(ENC_FRAME(_this))
 __CPROVER_ensures(ENC_OP_ENSURES(_this))
@@ -301,7 +310,7 @@ __CPROVER_ensures(_this->rng == TWO31 && _this->nbits_total == 33)
 
 /* table look-up: the table must end in 0 before entry _n; then the loop terminates inside the table */
 int ec_dec_icdf(ec_dec *_this, const unsigned char *_icdf, unsigned _ftb)
-__CPROVER_requires(DEC_OP_REQUIRES(_this) && 1 <= _ftb && _ftb <= 8 && 1 <= verif_icdf_n && verif_icdf_n <= 256)
+__CPROVER_requires(DEC_OP_REQUIRES(_this) && 1 <= _ftb && _ftb <= 8 && 1 <= verif_icdf_n && verif_icdf_n <= 256 && VERIF_FTB_CASE(_ftb))
 __CPROVER_requires(__CPROVER_is_fresh(_icdf, verif_icdf_n) && _icdf[verif_icdf_n - 1] == 0 && _icdf[0] <= (1U<<_ftb) - 1)
 __CPROVER_requires(__CPROVER_forall { int t1; (0 <= t1 && t1 < 255) ==> (t1 + 1 < verif_icdf_n ==> _icdf[t1] >= _icdf[t1+1]) })
 __CPROVER_assigns(DEC_FRAME(_this))
